@@ -68,7 +68,7 @@ pub const STARTS: &[Start] = &[
     },
     Start {
         name: "perpetual check: every reply to the queen's checks is forced (single legal move)",
-        start: "6k1/5ppp/8/8/7q/8/R4PP1/6K1 b - - 0 1",
+        start: "6k1/5ppp/8/8/7q/8/R5P1/6K1 b - - 0 1",
         alphabet: &["h4e1", "g1h2", "e1h4", "h2g1", "h4h5", "h5h4", "a2a1", "a1a2", "g8f8", "f8g8"],
         len_quick: 9,
         len_thorough: 11,
@@ -593,6 +593,13 @@ pub fn run(tier: &str, seed: u64, out: &str) {
         let l = if thorough { s.len_thorough } else { s.len_quick };
         let mut hs = Vec::new();
         histories(&p0, &alphabet, l, &mut Vec::new(), &mut hs);
+        // vacuity guard: every move of the alphabet must occur in some enumerated history
+        for m in &alphabet {
+            if !hs.iter().any(|h| h.contains(m)) {
+                eprintln!("MACHINERY ERROR: C09 start {:?}: alphabet move {} is never legal within {} plies", s.start, m.uci(), l);
+                std::process::exit(2);
+            }
+        }
         let before = st.draws_expected.load(Ordering::Relaxed);
         par_map_init(&hs, || None, |fl, h| check_history(fl, &cache, &rep, &st, s.start, None, h));
         let n_single = hs.len();
